@@ -141,7 +141,7 @@ def run_case(case, ctx):
     nd = rng.choice([0, 1, 2, 3, 4, 5, 7])
     defects = [rng.choice(trees.DEFECTS) for _ in range(nd)]
     recipe = trees.gen_recipe(rng, n_files=rng.randint(3, 10), defects=defects, spicy=True, git=(case["k"] % 9 == 4))
-    root = ctx.scratch / f"c13-{case['k']}"
+    top, root = trees.odd_root(ctx.scratch, "c13", case["k"])
     try:
         unreadable = trees.build(recipe, root, ctx.state["styles"])
         meson = case["k"] % 4 == 2
@@ -167,7 +167,7 @@ def run_case(case, ctx):
         res.cell(f"ndefects:{len(defects)}")
         res.n = max(res.n, 1)
     finally:
-        shutil.rmtree(root, ignore_errors=True)
+        shutil.rmtree(top, ignore_errors=True)
     return res.out()
 
 
